@@ -109,6 +109,30 @@ CHECKS = {
             "DESIGN.md 5/C15"),
 }
 
+# families added in the second build session (DESIGN.md 13.2); appended to the level note of each check
+LATER = {
+    "C01": "atoms incl. negative numbers, complex values with negative zeros, classes nested in classes",
+    "C02": "subclass instances against base-class constructor calls; previous argument spelled through a lambda call / builtin constructors",
+    "C03": "already-imported names in unusual places; UTF-8 BOM and latin-1 / cp1252 coding cookies; ASCII-locale cold sessions; five failing format-command modes",
+    "C04": "skip-snapshot-updates-for-now",
+    "C05": "bounds over a partial order (sets by inclusion)",
+    "C06": "real-session differential (no flags / report vs. disable) over re-evaluated call sites with inner snapshots / Is() in defaulted fields",
+    "C07": "comparisons in other threads, sites without source, nested in-process sessions",
+    "C08": "every atom of the value universe in the quick tier; lambda / constructor spellings",
+    "C09": "namedtuple / attrs call shapes, four-slot calls, deleted elements holding several updates",
+    "C10": "hand-written layouts: parenthesised user-controlled parts, f-strings vs. str subclasses",
+    "C11": "parenthesised element expressions",
+    "C12": "strings built from runs of 1-6 quote characters around line ends",
+    "C13": "fixed histories with invariant oracles: one content under several suffixes, relative storage-dir from different working directories",
+    "C14": "arguments modified in place between evaluations, several handles of one sub-snapshot key, twin values across call sites",
+    "C15": "trim mode with referenced / unreferenced persisted externals; ASCII-locale write step; read boundary follows tokenize.open",
+    "C16": "existing dict snapshots against every insertion order of the observed dict",
+    "C17": "hashable-but-mutable values, bytearray, nested tuples; non-copyable value under a new key of an existing sub-snapshot",
+    "C18": "snapshots evaluated without source; non-ASCII lines with sibling edits",
+    "C19": "generated projects (all C09 slot programs) through run_inline and the real session",
+    "C20": "black failing for one file of three; monorepo with a metadata-only pyproject.toml",
+}
+
 NOT_APPLICABLE = {
 }
 ALL = ["C%02d" % i for i in range(1, 21)]
@@ -125,7 +149,7 @@ def main():
             "replay_cmd_template": "cd /verif && /venv/bin/python -m mc.replay {path}",
             "engine": "mc",
             "level_claimed": {"category": cat, "text": text, "design_ref": ref},
-            "level_note": note,
+            "level_note": note + (" Added later (DESIGN.md 13.2): " + LATER[pid] + "." if pid in LATER else ""),
             "technique": tech,
         })
     na = []
